@@ -158,21 +158,33 @@ class Checker:
                     acc = f if acc is None else acc * f
                 else:
                     acc = (1.0 / f) if acc is None else acc / f
-        b = acc * (x * k)
-        ctx.ev()
+        forms = [("left to right", acc * (x * k))]
+        # the same composition associated differently: numerator product N and denominator product D first
+        N = D = None
+        for coef, u, e in comp:
+            f = Scalar(1.0, u)
+            for _ in range(abs(e)):
+                if e > 0:
+                    N = f if N is None else N * f
+                else:
+                    D = f if D is None else D * f
+        if N is not None and D is not None:
+            forms += [("N/D", (N / D) * (x * k)), ("N*(1/D)", (N * (1.0 / D)) * (x * k)), ("(1/D)*N", ((1.0 / D) * N) * (x * k))]
         ma = mag_of(um, a.GetQuantity(), a.GetValue())
-        mb = mag_of(um, b.GetQuantity(), b.GetValue())
         tol = max(FLOOR, 2 * u_row(info)) + 1e-9
-        if not (math.isfinite(ma) and math.isfinite(mb)) or ma == 0:
-            ctx.cls("scalar_form_skipped_extreme")
-            return
-        ctx.cls("scalar_form_checked")
-        if abs(mb / ma - 1) > tol:
-            ctx.record(
-                "scalar_form:%s:ratio=%.8g" % (sym, ma / mb),
-                {"sym": sym, "kind": "scalar_form", "reading": [list(c) for c in comp], "x": x},
-                "Scalar(%r,%r) is %.10g in base units, the composition %r is %.10g" % (x, sym, ma, b, mb),
-            )
+        for fname, b in forms:
+            ctx.ev()
+            mb = mag_of(um, b.GetQuantity(), b.GetValue())
+            if not (math.isfinite(ma) and math.isfinite(mb)) or ma == 0:
+                ctx.cls("scalar_form_skipped_extreme")
+                return
+            ctx.cls("scalar_form_checked")
+            if abs(mb / ma - 1) > tol:
+                ctx.record(
+                    "scalar_form:%s:ratio=%.8g" % (sym, ma / mb) if fname == "left to right" else "scalar_form_association:%s:%s" % (fname, sym),
+                    {"sym": sym, "kind": "scalar_form", "reading": [list(c) for c in comp], "x": x},
+                    "Scalar(%r,%r) is %.10g in base units, the composition (%s) %r is %.10g" % (x, sym, ma, fname, b, mb),
+                )
 
 
 def run_shard(spec, ctx):
